@@ -96,8 +96,37 @@ func c11Member(r *core.Rand, kind int) (p rtcp.Packet, cname string) {
 	case 10:
 		return gen.Packet(r, gen.XR, o), ""
 	default:
+		if r.Bool() {
+			// a RawPacket whose octets are a complete SR, RR or SDES-with-CNAME: its kind is still Raw
+			// (what a member IS is decided by its Go type, not by the octets a RawPacket carries)
+			var v rtcp.Packet
+			switch r.Intn(3) {
+			case 0:
+				v = gen.Packet(r, gen.SR, o)
+			case 1:
+				v = gen.Packet(r, gen.RR, o)
+			default:
+				v = &rtcp.SourceDescription{Chunks: []rtcp.SourceDescriptionChunk{{Source: r.U32(), Items: []rtcp.SourceDescriptionItem{{Type: rtcp.SDESCNAME, Text: "raw-cname"}}}}}
+			}
+			if e, err := ref.Encode(v, ref.Lib); err == nil {
+				rp := rtcp.RawPacket(e.B)
+				return &rp, ""
+			}
+		}
 		return gen.RawValue(r), ""
 	}
+}
+
+// c11RawRegistered reports a RawPacket member whose octets carry a registered packet type: the
+// datagram made of the members' octets then decodes to different kinds than the value has, so the
+// Unmarshal clause is not judged from the value's kinds.
+func c11RawRegistered(cp rtcp.CompoundPacket) bool {
+	for _, m := range cp {
+		if rp, ok := m.(*rtcp.RawPacket); ok && len(*rp) >= 2 && (*rp)[1] >= 200 && (*rp)[1] <= 207 {
+			return true
+		}
+	}
+	return false
 }
 
 // c11HasType0 reports an SDES item whose type is 0: such a value cannot be marshalled.
@@ -215,7 +244,7 @@ func c11Judge(cs *core.Case, kinds []int) {
 		cs.Check(len(b) == size, "marshal-size/len", det(core.W{"marshal_size": size, "len": len(b)}))
 	}
 	// Unmarshal of the members' reference octets
-	if !hasRR32 {
+	if !hasRR32 && !c11RawRegistered(cp) {
 		e, rerr := ref.EncodeList([]rtcp.Packet(cp), ref.Lib)
 		if rerr == nil {
 			var dec rtcp.CompoundPacket
